@@ -17,7 +17,7 @@ CLAIMED = {
          'Clamp, fixed-vector and activeness kernels of the connection encoders are proved (correct_vector_size/bounds, _correct_is_active); canonical-fixed-point and vector-describes-instance clauses are run-time contracts over the full declared space of every corpus graph (bounded).',
          NOTE, TECH),
  'C04': ('other',
-         'Enumeration = reference architectures (sound, complete, one each), counts and imputation ratio are run-time contracts on get_all_discrete_x / get_n_valid_designs over the corpus with and without one fixed variable (bounded); the scenario-merging numpy code is outside the deductive reach.',
+         'Enumeration = reference architectures (sound, complete, one each), counts and imputation ratio are run-time contracts on get_all_discrete_x / get_n_valid_designs over the corpus with and without one fixed variable (bounded); the scenario-merging numpy code is outside the deductive reach. Also proved: get_imputation_ratio and HierarchyAnalyzerBase.imputation_ratio are the quotient of declared size and valid count (1 when there is no valid design), over uninterpreted counts.',
          NOTE, TECH),
  'C05': ('other',
          'History-independence: after every operation history (length 2 quick / 3 thorough over decode, enumerate, statistics, mutate instance, pickle, fix, free) the processor must be observationally equal to a fresh one (bounded, exhaustive over the history alphabet); frame clauses of the analyzer proved where reached.',
@@ -29,37 +29,37 @@ CLAIMED = {
          'Activeness/imputation kernel (_correct_is_active, inactive canonical value, get_graph tail) proved; agreement between enumeration, create=True/False and corrected raw vectors is a run-time contract over all vectors of the corpus (bounded).',
          NOTE, TECH),
  'C08': ('other',
-         'Every derive/decode operation followed by re-observation of all live graph objects through the public API (bounded); frame clauses of copy/derive functions proved where reached.',
+         'Every derive/decode operation followed by re-observation of all live graph objects through the public API (bounded); frame clauses of copy/derive functions proved where reached. Proved: the value dicts handed out (des_var_values, metric_values) are fresh objects with the same content, set_metric_value touches one key, ConnectorDegreeGroupingNode.update_deg (call shape of the library) writes only the aggregate fields of that grouping node and no other connector.',
          NOTE, TECH),
  'C09': ('other',
-         'The jit-compiled validity test (_check_conns, _validate_matrix) is proved equivalent to the statement-level definition of a valid connection matrix for all matrices and settings (deductive, unbounded); enumeration, counting and the composed validate_matrix are checked against brute force on enumerated settings (bounded).',
+         'The jit-compiled validity test (_check_conns, _validate_matrix) is proved equivalent to the statement-level definition of a valid connection matrix for all matrices and settings (deductive, unbounded); enumeration, counting and the composed validate_matrix are checked against brute force on enumerated settings (bounded). Also proved: MatrixGenSettings.get_max_conn_parallel (explicit limit at least 1; default at least 2, at least every finite degree, attained).',
          NOTE, TECH),
  'C10': ('other',
          'Totality/range/fixed-point/onto/listing clauses as run-time contracts for every registry encoder x imputer over the full vector space [-1..n_opts] of enumerated settings (bounded); vector-size and clamp kernels proved.',
          NOTE, TECH),
  'C11': ('other',
-         'Proved for all inputs: get_mod_apply_connection_choice adds exactly the given connections (parallel ones as keyed edges), removes the choice node and exactly the exclusion / tie edges (with get_excluded_edges and get_deriving_edges under their own contracts); the exclusion-pair remapping per existence pattern; ConnectionChoiceNode.validate_conn_edges (edges counted into the matrix in the connector order of the matrix generator, foreign connectors rejected, verdict = the validity test of the generator, which is proved under C09). Connection sets offered per selection scenario = brute-force valid sets and decoded sets valid for the present connectors are bounded contracts over the CONN corpus.',
+         'Proved for all inputs: get_mod_apply_connection_choice adds exactly the given connections (parallel ones as keyed edges), removes the choice node and exactly the exclusion / tie edges (with get_excluded_edges and get_deriving_edges under their own contracts); the exclusion-pair remapping per existence pattern; ConnectionChoiceNode.validate_conn_edges (edges counted into the matrix in the connector order of the matrix generator, foreign connectors rejected, verdict = the validity test of the generator, which is proved under C09). Connection sets offered per selection scenario = brute-force valid sets and decoded sets valid for the present connectors are bounded contracts over the CONN corpus. Also proved: update_deg counts exactly the member connectors of this graph (repeat flag via the proved get_repeated_allowed), ConnectorNode.is_valid is the listed-degree / inclusive-range test (open-ended maxima bounded only).',
          NOTE, TECH),
  'C13': ('other',
          'Proved: the row predicates of get_valid_idx_combinations (non-decreasing / strictly increasing), get_constraint_pre_removed_options (a PERMUTATION is only pruned when unsatisfiable; UNORDERED_NOREPL removes only unreachable indices), linked design-variable propagation of DSG.set_des_var_value. Index functions checked exhaustively on the bound the property names and offered architectures = reference for both encoders (bounded); get_constraint_removed_options stays bounded (draft contract undecided).',
          NOTE, TECH),
  'C14': ('other',
-         'Fast-encoder soundness/onto/valid-unchanged as run-time contracts over the full declared space, plus independence from other processors of the same process (bounded); proved: the neighbourhood generator _iter_values (current value first, every value of the range tried) and one half of _get_selection_choice_is_forced (every later member of a LINKED constraint, in the analyzer order, is forced); its other half (nothing else is forced) is a bounded clause on the constrained corpus.',
+         'Fast-encoder soundness/onto/valid-unchanged as run-time contracts over the full declared space, plus independence from other processors of the same process (bounded); proved: the neighbourhood generator _iter_values (current value first, every value of the range tried) and one half of _get_selection_choice_is_forced (every later member of a LINKED constraint, in the analyzer order, is forced); its other half (nothing else is forced) is a bounded clause on the constrained corpus. Also proved: _get_n_opts declares one option count per selection choice, equal to the number of its options.',
          NOTE, TECH),
  'C15': ('other',
-         'Proved: fix_des_var / is_fixed / fixed_value bookkeeping, _get_all_des_var_values (fixed values merged in order), _update_comb_fixed_mask (fixed choices keyed by choice index; the stored mask is always the answer for the current fixed choices), frame clauses of the analyzer. fix/free sequences compared with filtering the unfixed enumeration and with a fresh processor (bounded).',
+         'Proved: fix_des_var / is_fixed / fixed_value bookkeeping, _get_all_des_var_values (fixed values merged in order), _update_comb_fixed_mask (fixed choices keyed by choice index; the stored mask is always the answer for the current fixed choices), frame clauses of the analyzer. fix/free sequences compared with filtering the unfixed enumeration and with a fresh processor (bounded). Also proved: after every fix and every free the stored mask is the mask of the current fixed values (MASKOF, under the assumed determinism of the analyzer); free_des_var removes exactly that entry (checked against the contract of fix_des_var); fix_des_var is checked against the contract of the real _update_comb_fixed_mask.',
          NOTE, TECH),
  'C16': ('other',
-         'Proved for all inputs: DesignVariableNode.correct_value (clamp, integrality, fraction), DSG.set_des_var_value (stored value in domain, linked nodes clamped to their own range / same relative position), DSG.des_var_nodes (only the first node of a linked set gets a variable, every other node its own), DesVar.__init__ / from_des_var_node (a variable declares exactly the domain of its node), the design-variable value segment and the imputation tail of get_graph. Existence coverage over whole architectures is a run-time contract over the DV corpus (bounded).',
+         'Proved for all inputs: DesignVariableNode.correct_value (clamp, integrality, fraction), DSG.set_des_var_value (stored value in domain, linked nodes clamped to their own range / same relative position), DSG.des_var_nodes (only the first node of a linked set gets a variable, every other node its own), DesVar.__init__ / from_des_var_node (a variable declares exactly the domain of its node), the design-variable value segment and the imputation tail of get_graph. Existence coverage over whole architectures is a run-time contract over the DV corpus (bounded). The value getters (des_var_value, des_var_values) are proved too and replace a formerly assumed callee contract.',
          NOTE, TECH),
  'C17': ('proof',
-         'Every function between the metric nodes and the evaluation result (_can_be_objective, _can_be_constraint, _get_metrics, _categorize_metrics, _choose_metric_type, Objective/Constraint.from_metric_node and __init__, DSGEvaluator.evaluate) is under contract; the clauses of the property statement are postconditions and all generated obligations are discharged by z3/cvc5 for all inputs. The link permanent node = exists in every architecture is an assumption corroborated by a bounded run-time contract.',
+         'Every function between the metric nodes and the evaluation result (_can_be_objective, _can_be_constraint, _get_metrics, _categorize_metrics, _choose_metric_type, Objective/Constraint.from_metric_node and __init__, DSGEvaluator.evaluate) is under contract; the clauses of the property statement are postconditions and all generated obligations are discharged by z3/cvc5 for all inputs. The link permanent node = exists in every architecture is an assumption corroborated by a bounded run-time contract. set_metric_value / metric_value / metric_values are now under contract themselves (formerly an assumed callee of evaluate).',
          NOTE, TECH),
  'C18': ('exploration',
          'hash/equality/fingerprint compare Python hash() values: no contract within reach of an SMT-based verifier states or decides them. Bounded only: copy/edit/pickle/export contracts over the corpus, same variables and same mapping for copies and reordered rebuilds; hash-seed sweep with pickled graphs from subprocesses in the thorough tier.',
          NOTE, TECH),
  'C20': ('other',
-         'Proved: SupDSG.initialize_choices (duplicate / unmapped checks), SupDSG.resolve (non-final or infeasible source must raise; mappings applied in order), SupExistenceMapping.resolve (first existing source node decides), SupSelChoiceOptionMapping.resolve (inactive source choice takes the None entry, otherwise the entry of the one mapped option wired to the originating node; errors otherwise; the mapping is left as it was). The whole-resolution clauses are run-time contracts over all architectures of the corpus sources (bounded).',
+         'Proved: SupDSG.initialize_choices (duplicate / unmapped checks), SupDSG.resolve (non-final or infeasible source must raise; mappings applied in order), SupExistenceMapping.resolve (first existing source node decides), SupSelChoiceOptionMapping.resolve (inactive source choice takes the None entry, otherwise the entry of the one mapped option wired to the originating node; errors otherwise; the mapping is left as it was). The whole-resolution clauses are run-time contracts over all architectures of the corpus sources (bounded). Also proved: add_mapping rejects a choice that is not in this graph, appends otherwise, and leaves the registrations unchanged when the mapping-specific check raises.',
          NOTE, TECH),
 }
 
